@@ -598,6 +598,7 @@ func (p *process) SendPID(to gen.PID, message any) error {
 			queue = p.mailbox.Main
 		}
 
+		lib.VerifPoint(p, "send:push")
 		if ok := queue.Push(qm); ok == false {
 			return gen.ErrProcessMailboxFull
 		}
@@ -1038,6 +1039,7 @@ func (p *process) Inspect(target gen.PID, item ...string) (map[string]string, er
 	}
 	targetp := value.(*process)
 
+	lib.VerifPoint(targetp, "send:alive")
 	if alive := targetp.isAlive(); alive == false {
 		return nil, gen.ErrProcessTerminated
 	}
@@ -1048,6 +1050,7 @@ func (p *process) Inspect(target gen.PID, item ...string) (map[string]string, er
 	qm.Type = gen.MailboxMessageTypeInspect
 	qm.Message = item
 
+	lib.VerifPoint(targetp, "send:push")
 	if ok := targetp.mailbox.Urgent.Push(qm); ok == false {
 		return nil, gen.ErrProcessMailboxFull
 	}
@@ -1617,6 +1620,7 @@ func (p *process) Forward(
 	}
 	fp := value.(*process)
 
+	lib.VerifPoint(fp, "send:alive")
 	if alive := fp.isAlive(); alive == false {
 		return gen.ErrProcessTerminated
 	}
@@ -1629,6 +1633,7 @@ func (p *process) Forward(
 	default:
 		queue = fp.mailbox.Main
 	}
+	lib.VerifPoint(fp, "send:push")
 	if ok := queue.Push(message); ok == false {
 		return gen.ErrProcessMailboxFull
 	}
@@ -1641,6 +1646,7 @@ func (p *process) Forward(
 // internal
 
 func (p *process) run() {
+	lib.VerifPoint(p, "run:cas")
 	if atomic.CompareAndSwapInt32(
 		&p.state,
 		int32(gen.ProcessStateSleep),
@@ -1649,13 +1655,17 @@ func (p *process) run() {
 		// already running or terminated
 		return
 	}
+	lib.VerifPoint(p, "run:go")
 	go func() {
+		defer lib.VerifDone()
+		lib.VerifPoint(p, "runner:start")
 		if lib.Recover() {
 			defer func() {
 				if rcv := recover(); rcv != nil {
 					pc, fn, line, _ := runtime.Caller(2)
 					p.log.Panic("process terminated - %#v at %s[%s:%d]",
 						rcv, runtime.FuncForPC(pc).Name(), fn, line)
+					lib.VerifPoint(p, "runner:swapTermPanic")
 					old := atomic.SwapInt32(&p.state, int32(gen.ProcessStateTerminated))
 					if old == int32(gen.ProcessStateTerminated) {
 						return
@@ -1678,6 +1688,7 @@ func (p *process) run() {
 				p.log.Error("process terminated abnormally - %s", err)
 			}
 
+			lib.VerifPoint(p, "runner:swapTermErr")
 			old := atomic.SwapInt32(&p.state, int32(gen.ProcessStateTerminated))
 			if old == int32(gen.ProcessStateTerminated) {
 				return
@@ -1692,12 +1703,14 @@ func (p *process) run() {
 		p.runningTime = p.runningTime + uint64(time.Now().UnixNano()-startTime)
 
 		// change running state to sleep
+		lib.VerifPoint(p, "runner:casSleep")
 		if atomic.CompareAndSwapInt32(
 			&p.state,
 			int32(gen.ProcessStateRunning),
 			int32(gen.ProcessStateSleep),
 		) == false {
 			// process has been killed (was in zombee state)
+			lib.VerifPoint(p, "runner:swapTermKill")
 			old := atomic.SwapInt32(&p.state, int32(gen.ProcessStateTerminated))
 			if old == int32(gen.ProcessStateTerminated) {
 				return
@@ -1707,6 +1720,7 @@ func (p *process) run() {
 			return
 		}
 		// check if something left in the inbox and try to handle it
+		lib.VerifPoint(p, "runner:recheck")
 		if p.mailbox.Main.Item() == nil {
 			if p.mailbox.System.Item() == nil {
 				if p.mailbox.Urgent.Item() == nil {
@@ -1718,6 +1732,7 @@ func (p *process) run() {
 			}
 		}
 		// we got a new messages. try to use this goroutine again
+		lib.VerifPoint(p, "runner:casRun")
 		if atomic.CompareAndSwapInt32(
 			&p.state,
 			int32(gen.ProcessStateSleep),
@@ -1766,6 +1781,7 @@ func (p *process) waitResponse(ref gen.Ref, timeout int) (any, error) {
 	var response any
 	var err error
 
+	lib.VerifPoint(p, "wait:casEnter")
 	if swapped := atomic.CompareAndSwapInt32(&p.state, int32(gen.ProcessStateRunning), int32(gen.ProcessStateWaitResponse)); swapped == false {
 		return nil, gen.ErrNotAllowed
 	}
@@ -1800,6 +1816,7 @@ retry:
 		err = r.err
 	}
 
+	lib.VerifPoint(p, "wait:casExit")
 	if swapped := atomic.CompareAndSwapInt32(&p.state, int32(gen.ProcessStateWaitResponse), int32(gen.ProcessStateRunning)); swapped == false {
 		return nil, gen.ErrProcessTerminated
 	}
